@@ -149,7 +149,6 @@ func TestVerif_C02_KeyRange(t *testing.T) {
 	})
 }
 
-
 // Histories of consecutive SignHashed calls whose private keys are RELATED (prefix, extension, padding, one byte changed,
 // the same key again): each signature must be the standard's value for ITS key, whatever was signed before.
 func TestVerif_C02_RelatedKeyHistory(t *testing.T) {
